@@ -53,8 +53,8 @@ type vhNums struct {
 	pv, pc       [3]uint64 // per target "", "A", "B"
 	pvTop, pcTop int       // index of the most voted target
 	th           *vhThresholds
-	nPH          int       // proposed headers shown: 0, 1 (A), 2 (A, B)
-	ownPH        bool      // the view contains a header proposed by the local key
+	nPH          int  // proposed headers shown: 0, 1 (A), 2 (A, B)
+	ownPH        bool // the view contains a header proposed by the local key
 	version      uint32
 }
 
@@ -97,10 +97,10 @@ func vhTopChoices() int {
 }
 
 const (
-	vhGrowAll = iota // every number may grow
-	vhGrowPV         // only the prevote numbers change
-	vhGrowPC         // only the precommit numbers change
-	vhGrowNone       // numbers unchanged (a header arrives)
+	vhGrowAll  = iota // every number may grow
+	vhGrowPV          // only the prevote numbers change
+	vhGrowPC          // only the precommit numbers change
+	vhGrowNone        // numbers unchanged (a header arrives)
 )
 
 // vhGenNums makes the numbers of a new view. prev != nil: a later view of the same
@@ -405,10 +405,10 @@ type vhRound struct {
 }
 
 const (
-	evView = iota // every number may grow, a header may arrive (thorough)
-	evViewPV      // prevote numbers grow
-	evViewPC      // precommit numbers grow
-	evHeader      // one more proposed header, numbers unchanged
+	evView   = iota // every number may grow, a header may arrive (thorough)
+	evViewPV        // prevote numbers grow
+	evViewPC        // precommit numbers grow
+	evHeader        // one more proposed header, numbers unchanged
 	evTimer
 	evPrevoteAnswer
 	evPrecommitAnswer
@@ -449,10 +449,10 @@ type vhSM struct {
 	stop       chan struct{}
 
 	// options
-	allowCatchup   bool // the mirror may answer an entrance with a committed header
-	symEntrances   int  // how many more entrance responses carry arbitrary numbers (later ones: no votes yet)
-	entrancePHs    int  // max proposed headers in an entrance response
-	ownPHInRestart bool
+	allowCatchup     bool // the mirror may answer an entrance with a committed header
+	symEntrances     int  // how many more entrance responses carry arbitrary numbers (later ones: no votes yet)
+	entrancePHs      int  // max proposed headers in an entrance response
+	ownPHInRestart   bool
 	viewsLeft        int  // how many more view updates with new numbers may be delivered (<0: no limit)
 	laterEntrancePHs bool // entrance responses after the first of a life may carry headers too
 
@@ -470,17 +470,17 @@ type vhSM struct {
 	emits     []vhEmit
 	drained   int
 	// event in progress
-	evKind       int
-	evTimerKind  int
-	evTimerHR    vhHR
-	evJumpTo     vhHR
-	cursor       vhCursor
-	crashed      bool
-	seen         int // coverage bits, see vhSeen*
-	crashOnSave  bool // the process dies right after the next successful action-store save
-	th           *vhThresholds
-	avail        uint64 // available power of the validator set (symbolic, one per environment)
-	oldTimers    []*vhTimerRec
+	evKind      int
+	evTimerKind int
+	evTimerHR   vhHR
+	evJumpTo    vhHR
+	cursor      vhCursor
+	crashed     bool
+	seen        int  // coverage bits, see vhSeen*
+	crashOnSave bool // the process dies right after the next successful action-store save
+	th          *vhThresholds
+	avail       uint64 // available power of the validator set (symbolic, one per environment)
+	oldTimers   []*vhTimerRec
 	// the real handleCatchupEvent never returns once entered (its loop has no exit
 	// besides context cancellation): modelled faithfully as a sticky mode
 	catchupLoop bool
